@@ -3,6 +3,7 @@ from __future__ import annotations
 import hashlib
 import inspect
 import os
+import sys
 from abc import ABC, abstractmethod
 from collections.abc import ByteString, Iterator
 from typing import Optional
@@ -269,6 +270,10 @@ class gclmulchunker(ChunkerAdapter):
                 f'Minimum length ({min_length}) is greater '
                 f'than the maximum one ({max_length})'
             )
+
+        # The native chunker works with size_t and looks at 2 * max_length bytes
+        if max_length > sys.maxsize:
+            raise ValueError(f'Maximum length ({max_length}) is too large')
 
         # Cuts are placed at multiples of the alignment
         if (
